@@ -599,6 +599,51 @@ pub fn families() -> Vec<Box<dyn Family>> {
                 }
             },
         ),
+
+        family(
+            "deep_many_ops",
+            "STACK DEPTH: valid alternating op lists of 100000..300000 ops (one-item changes separated by equal runs of 1..4 items) grouped with radius 0, 1 and 3 - tens of thousands of groups; reference grouping; run with the stack of an ordinary thread in the small-stack stage (an unoptimised build)",
+            false,
+            1,
+            |cfg| if cfg.tiny { 1 } else { cfg.tier.pick(3, 9) },
+            |idx, cfg, out| {
+                let mut rng = Rng::for_case(cfg.seed, "c12.deep", idx);
+                let n_ops = if cfg.tiny { 12 } else { rng.range(100_000, 300_000) };
+                let mut ops: Vec<DiffOp> = Vec::with_capacity(n_ops);
+                let (mut o, mut n) = (0usize, 0usize);
+                for i in 0..n_ops {
+                    if i % 2 == 0 {
+                        let l = 1 + (i / 2 + idx as usize) % 4;
+                        ops.push(DiffOp::Equal { old_index: o, new_index: n, len: l });
+                        o += l;
+                        n += l;
+                    } else if i % 4 == 1 {
+                        ops.push(DiffOp::Delete { old_index: o, old_len: 1, new_index: n });
+                        o += 1;
+                    } else {
+                        ops.push(DiffOp::Insert { old_index: o, new_index: n, new_len: 1 });
+                        n += 1;
+                    }
+                }
+                out.sample(|| format!("{} ops", ops.len()));
+                out.nontrivial(&("deep", ops.len(), idx));
+                out.count("deep_cases");
+                for radius in [0usize, 1, 3] {
+                    out.eval();
+                    let o2 = ops.clone();
+                    match guard(move || group_diff_ops(o2, radius)) {
+                        Err(p) => out.violation("panic", format!("group_diff_ops on {} ops panicked: {}", ops.len(), p)),
+                        Ok(groups) => {
+                            out.count_n("groups_observed", groups.len() as u64);
+                            let expect = reference_groups(&ops, radius);
+                            if strip_empty_equal(&groups) != expect {
+                                out.violation("group.differs_from_reference", format!("group_diff_ops(n={}) on {} ops: {} groups, reference {} groups", radius, ops.len(), groups.len(), expect.len()));
+                            }
+                        }
+                    }
+                }
+            },
+        ),
     ]
 }
 
